@@ -58,11 +58,13 @@ Notes:
 """
   from numpy import abs, asarray, newaxis as nwxs, zeros_like
   # cast as arrays of the same dimension
+  from numpy import result_type
+  # as floats of at least double precision (integers wrap; short floats overflow)
+  _wide = lambda t: result_type(t, complex if t.kind == 'c' else float) if t.kind in 'fc' else float
   x = asarray(x)
-  _short = lambda t: t.kind in 'iub' or (t.kind == 'f' and t.itemsize < 8)
-  if _short(x.dtype): x = x.astype(float) # (integers wrap; short floats overflow)
+  x = x.astype(_wide(x.dtype))
   xp = x if xp is None else asarray(xp)
-  if _short(xp.dtype): xp = xp.astype(float)
+  xp = xp.astype(_wide(xp.dtype))
   xsize = max(len(x.shape), len(xp.shape), dmin)
   while len(x.shape) < xsize: x = x[nwxs]
   while len(xp.shape) < xsize: xp = xp[nwxs]
